@@ -123,11 +123,12 @@ func closeBounded(db *leveldb.DB) { call(3*time.Second, func() error { return db
 // checkContents reads every marker and key and compares with the in-order application of the batches whose
 // marker is present; all acknowledged batches must be present. readErrOK: read errors are tolerated (faults active).
 func checkContents(db *leveldb.DB, bs []*bstat, phase string, readErrOK bool) string {
-	return checkContentsNeed(db, bs, phase, readErrOK, func(s *bstat) bool { return s.ok })
+	return checkContentsNeed(db, bs, phase, readErrOK, false, func(s *bstat) bool { return s.ok })
 }
 
-// checkContentsNeed: need(s) says whether batch s must be present.
-func checkContentsNeed(db *leveldb.DB, bs []*bstat, phase string, readErrOK bool, need func(*bstat) bool) string {
+// checkContentsNeed: need(s) says whether batch s must be present; strict: no error at all is acceptable (nothing
+// damaged the bytes of this storage: a "corrupted" answer means something durable was not durable).
+func checkContentsNeed(db *leveldb.DB, bs []*bstat, phase string, readErrOK, strict bool, need func(*bstat) bool) string {
 	got := map[string][]byte{}
 	it := db.NewIterator(nil, nil)
 	for it.Next() {
@@ -136,10 +137,10 @@ func checkContentsNeed(db *leveldb.DB, bs []*bstat, phase string, readErrOK bool
 	err := it.Error()
 	it.Release()
 	if err != nil {
-		if readErrOK || errors.IsCorrupted(err) {
+		if !strict && (readErrOK || errors.IsCorrupted(err)) {
 			return "" // an error instead of data is allowed; wrong data is not
 		}
-		return fmt.Sprintf("%s: iteration fails after the faults were removed: %v", phase, err)
+		return fmt.Sprintf("%s: iteration fails: %v", phase, err)
 	}
 	exp := map[string][]byte{}
 	for _, s := range bs {
@@ -177,12 +178,12 @@ func checkContentsNeed(db *leveldb.DB, bs []*bstat, phase string, readErrOK bool
 			return fmt.Sprintf("%s: key %x of an applied batch is missing (a batch is partly applied or an acknowledged write is hidden)", phase, k)
 		}
 	}
-	return pointReads(db, exp, phase, readErrOK, 40)
+	return pointReads(db, exp, phase, readErrOK && !strict, 40, strict)
 }
 
 // pointReads: every Get must return the expected value or a genuine error — "not found" for a key that is
 // there is a wrong answer, not an error.
-func pointReads(db *leveldb.DB, exp map[string][]byte, phase string, readErrOK bool, max int) string {
+func pointReads(db *leveldb.DB, exp map[string][]byte, phase string, readErrOK bool, max int, strict bool) string {
 	n := 0
 	for k, v := range exp {
 		if n++; n > max {
@@ -193,7 +194,7 @@ func pointReads(db *leveldb.DB, exp map[string][]byte, phase string, readErrOK b
 			return fmt.Sprintf("%s: Get(%x) says not found for a key whose batch is applied (a failed read must surface as an error, not as absence)", phase, k)
 		}
 		if err != nil {
-			if readErrOK || errors.IsCorrupted(err) {
+			if !strict && (readErrOK || errors.IsCorrupted(err)) {
 				continue
 			}
 			return fmt.Sprintf("%s: Get(%x) fails: %v", phase, k, err)
@@ -223,13 +224,35 @@ func readFaultProbe(db *leveldb.DB, stor *vstor.Stor, bs []*bstat, r *vlib.RNG) 
 	}
 	for t := 0; t < 6; t++ {
 		stor.AddFault(&vstor.Fault{Kind: vstor.OpRead, Type: storage.TypeTable, K: r.Intn(8), Persistent: r.Chance(1, 3)})
-		m := pointReads(db, exp, "under a table read fault", true, 1000)
+		m := pointReads(db, exp, "under a table read fault", true, 1000, false)
 		stor.Heal()
 		if m != "" {
 			return m
 		}
 	}
 	return ""
+}
+
+// crashOracle: a crash right now (every unsynced tail lost) must leave an image that opens, serves no error, and
+// holds everything that was acknowledged with sync (and every committed transaction), whatever failed before;
+// batches stay atomic.
+func crashOracle(stor *vstor.Stor, o *opt.Options, bs []*bstat, phase string) (msg, hung string) {
+	img := stor.Clone(false)
+	for _, fd := range img.ListAll() {
+		data, synced, _ := img.FileBytes(fd)
+		img.SetFileBytes(fd, data[:synced])
+	}
+	var dbc *leveldb.DB
+	err, to := call(60*time.Second, func() error { var e error; dbc, e = leveldb.Open(img, o); return e })
+	if to {
+		return "", "Open of the crash image did not return"
+	}
+	if err != nil {
+		return phase + ": Open of the image fails: " + err.Error(), ""
+	}
+	m := checkContentsNeed(dbc, bs, phase, false, true, func(s *bstat) bool { return s.ok && (s.b.Sync || s.b.Txn) })
+	closeBounded(dbc)
+	return m, ""
 }
 
 func runScenario(sc *Scenario) (out outcome) {
@@ -286,6 +309,14 @@ func runScenario(sc *Scenario) (out outcome) {
 			healed = true
 			// after healing, everything that was reported successful must be readable and consistent
 			if m := checkContents(db, bs, "after healing", false); m != "" {
+				out.msg = m
+				closeBounded(db)
+				return
+			}
+			if m, hung := crashOracle(stor, o, bs, "after a crash (unsynced tails lost) right after the faults were removed"); hung != "" {
+				out.hung = hung
+				return
+			} else if m != "" {
 				out.msg = m
 				closeBounded(db)
 				return
@@ -418,34 +449,15 @@ func runScenario(sc *Scenario) (out outcome) {
 		closeBounded(db)
 		return
 	}
-	// a crash right now (every unsynced tail lost) must still find everything that was acknowledged with sync,
-	// whatever failed before, and the image must open
-	{
-		img := stor.Clone(false)
-		for _, fd := range img.ListAll() {
-			data, synced, _ := img.FileBytes(fd)
-			img.SetFileBytes(fd, data[:synced])
-		}
-		var dbc *leveldb.DB
-		err, to := call(60*time.Second, func() error { var e error; dbc, e = leveldb.Open(img, o); return e })
-		if to {
-			out.hung = "Open of the crash image did not return"
-			return
-		}
-		if err != nil {
-			out.msg = "a crash after the faults were removed (unsynced tails lost): Open of the image fails: " + err.Error()
-			closeBounded(db)
-			return
-		}
-		m := checkContentsNeed(dbc, bs, "after a crash (unsynced tails lost) that follows the faults", false, func(s *bstat) bool { return s.ok && (s.b.Sync || s.b.Txn) })
-		closeBounded(dbc)
-		if m != "" {
-			out.msg = m
-			closeBounded(db)
-			return
-		}
-		out.stats["crash_images_after_faults"]++
+	if m, hung := crashOracle(stor, o, bs, "after a crash (unsynced tails lost) that follows the faults"); hung != "" {
+		out.hung = hung
+		return
+	} else if m != "" {
+		out.msg = m
+		closeBounded(db)
+		return
 	}
+	out.stats["crash_images_after_faults"]++
 	if sc.ReadProbe {
 		if m := readFaultProbe(db, stor, bs, vlib.NewRNG(sc.W.Seed)); m != "" {
 			out.msg = m
@@ -484,7 +496,12 @@ func runScenario(sc *Scenario) (out outcome) {
 		}
 	}
 	hk.mu.Lock()
-	edits := append([]editEv(nil), hk.edits...)
+	var edits []editEv
+	for _, e := range hk.edits {
+		if e.idx <= len(opsBeforeReopen) { // the commits of the final Open are not part of the history
+			edits = append(edits, e)
+		}
+	}
 	hk.mu.Unlock()
 	out.kcase, out.kwhy = kCase(sc, opsBeforeReopen, bs, edits, reopens, openIdx, kept, faults)
 	return
@@ -492,7 +509,7 @@ func runScenario(sc *Scenario) (out outcome) {
 
 func main() {
 	a := vlib.ParseArgs()
-	res := vlib.NewResult("C08", a.Out, "marker-carrying workloads (writes, batches, oversized batches, transactions, CompactRange, reopen; tiny buffers) x fault positions: the k-th {write, sync, create, open, read, remove, closew} on {journal, manifest, table} files, once or persistently, partial writes, singly (quick) or in pairs (thorough), armed at a random step and healed at a later one; checked while faults are active (errors allowed, wrong data not), after healing, and after close + reopen against the three-valued batch oracle read off the unique markers; non-trivial = a fault actually fired on a journal/manifest/table write, sync, create or remove (not a read)")
+	res := vlib.NewResult("C08", a.Out, "marker-carrying workloads (writes, batches, oversized batches, transactions, CompactRange, reopen; tiny buffers) x fault positions: the k-th {write, sync, create, open, read, remove, closew} on {journal, manifest, table} files, once or persistently, partial writes, singly (quick) or in pairs (thorough), armed at a random step and healed at a later one; checked while faults are active (errors allowed, wrong data not), after healing, and after close + reopen against the three-valued batch oracle read off the unique markers; after healing a synced write must succeed (retried for 12 s) and a crash image (unsynced tails lost) taken after healing and at the end must open, serve no error and hold every sync-acknowledged write; one scenario in sixteen is directed at a failing transaction commit; every scenario is also translated into the Coq fault model (K); non-trivial = a fault actually fired on a journal/manifest/table write, sync, create or remove (not a read)")
 	skipWrite := false
 	defer func() {
 		if !skipWrite {
@@ -684,6 +701,39 @@ func main() {
 		}
 		sc.ArmStep = r.Intn(n)
 		sc.HealStep = sc.ArmStep + 1 + r.Intn(n-sc.ArmStep)
+		// one scenario in sixteen is directed at a failing commit: a few writes, then a transaction (or a batch above
+		// the write buffer) whose manifest write or sync fails — persistently (every retry and the discard's own fresh
+		// manifest fail too) or once —, the fault removed right after it, then a few acknowledged writes and the end
+		if i%16 == 5 && !journalOnly {
+			var small, victims []wl.Step
+			for _, st := range w.Steps {
+				switch {
+				case st.Kind == "txn", st.Kind == "write" && len(st.Recs) > w.Cfg.WriteBuffer/300 && !w.Cfg.NoLargeBatchTxn:
+					victims = append(victims, st)
+				case st.Kind == "write" && len(st.Recs) < 6:
+					st.Sync = true
+					small = append(small, st)
+				}
+			}
+			if len(victims) > 0 && len(small) >= 4 {
+				pre, post := r.Intn(3), 1+r.Intn(3)
+				var steps []wl.Step
+				steps = append(steps, small[:pre]...)
+				steps = append(steps, wl.Step{Kind: "idle"})
+				steps = append(steps, victims[r.Intn(len(victims))])
+				steps = append(steps, small[pre:pre+post]...)
+				w.Steps = steps
+				sc.ReadProbe = false
+				f := FaultSpec{Kind: int([]vstor.OpKind{vstor.OpSync, vstor.OpSync, vstor.OpWrite}[r.Intn(3)]), Type: int(storage.TypeManifest), K: 0, Persistent: r.Chance(2, 3)}
+				if vstor.OpKind(f.Kind) == vstor.OpWrite {
+					f.Partial = []int{0, 1000, r.Range(0, 1000)}[r.Intn(3)]
+				}
+				sc.Faults = []FaultSpec{f}
+				sc.ArmStep = pre + 1
+				sc.HealStep = pre + 2
+				res.Count("directed_failing_commit", 1)
+			}
+		}
 		if i < 2 {
 			res.Sample(map[string]interface{}{"faults": sc.Faults, "arm_step": sc.ArmStep, "heal_step": sc.HealStep, "steps": len(w.Steps), "cfg": w.Cfg.String()})
 		}
